@@ -56,9 +56,8 @@ func c20(c *evid.Ctx) {
 	for run := 0; run < pr && c.NumViolations() < 20; run++ {
 		c20positive(c, r, run)
 	}
-	if c.Counter("rated datagrams written") == 0 || c.Counter("sends denied for lack of budget") == 0 {
-		c.Inconclusive("budget never exhausted or never used")
-	}
+	c.Floor("rated datagrams written", 1)
+	c.Floor("sends denied for lack of budget", 1)
 }
 
 func c20exact(c *evid.Ctx, r *gen.Rand, run int) {
